@@ -573,6 +573,12 @@ def run_c19(ctx):
         cases.append({"rows": rows, "bounds": [[0, 1]] * nc, "src": "random", "k": k, "dtype": "int8",
                       "points": [pt(), [pt() for _ in range(2)], [[pt(), pt()], [pt(), pt()]]]})
         ctx.region("int8_polyhedron")
+        if k % 3 == 0:
+            # ... and points whose coordinates do not fit the polyhedron's storage type (they are given as int64 / int32 arrays)
+            wp = lambda: [rng.choice([200, -200, 130, 300, -129, 1000]) if rng.random() < 0.6 else rng.randint(-3, 3) for _ in range(nc)]
+            cases.append({"rows": rows, "bounds": [[0, 1]] * nc, "src": "random", "k": k, "dtype": "int8",
+                          "points": [wp(), [wp() for _ in range(2)], [[wp(), wp()], [wp(), wp()]]]})
+            ctx.region("points_wider_than_storage")
     for c in random_polys(ctx, 300 if q else 4000, required=("rows>=3", "cols>=3")):
         nc = len(c["bounds"]); rng = ctx.rng
         pt = lambda: [rng.randint(-2, 3) for _ in range(nc)]
